@@ -1453,6 +1453,18 @@ func (x *Exec) havocExplicit(ct *Contract, call *ast.CallExpr, st, entry *State,
 // havocGhostResults: a call inside a loop gives new values to the ghost variables its postconditions
 // mention (they are ghost results of the callee); at the loop head these ghosts are unknown.
 func (x *Exec) havocGhostResults(ct *Contract, st *State) {
+	if ct.KeepsGhosts {
+		return
+	}
+	if ct.HasGhostOut {
+		for _, g := range ct.GhostOut {
+			gp := "ghost:" + g
+			if cur, ok := st.vars[gp].(Scalar); ok {
+				st.vars[gp] = Scalar{x.fc.fresh(gp, cur.TI.sort()), cur.TI}
+			}
+		}
+		return
+	}
 	for _, cl := range ct.Ensures {
 		for _, g := range ghostNameRe.FindAllString(cl.Text, -1) {
 			gp := "ghost:" + g
